@@ -20,6 +20,12 @@ RULE = ("per op one Resolved / Schema tree shared by 8 goroutines x 6 rounds cal
         "cached or lazily built structure (patterns, patternProperties, required sets, $dynamicRef stack, unevaluated* annotations, "
         "uniqueItems hashing); the harness is rebuilt with -race and any race report is a violation. Non-trivial: every op; distinct = "
         "operation text. The theorem is about the sharing protocol (JSV/Model/Conc.lean); the Go memory model itself is sampled only.")
+RULE += (" Widened (~35% of the ops): the shared Resolved is made with ResolveOptions.ValidateDefaults (harness argument validateDefaults) "
+         "from a document that carries 2..7 `default` keywords — under properties, nested properties, items, $defs, allOf branches — each "
+         "valid against its own subschema by construction, and (known finding D19: ValidateDefaults refuses any tree with a $dynamicRef) "
+         "no $dynamicRef; the goroutines start right after that Resolve, each with a burst of 4..16 back-to-back Validate passes over "
+         "all instances (harness argument burst); before that, 8..32 times per op, a FRESH Resolved made the same way is hit by the 8 "
+         "goroutines at once (harness argument freshRounds).")
 TRUSTED = ["Go race detector (sampling, not proof)"]
 PREFILTER = vjudge.prefilter
 
@@ -37,7 +43,79 @@ def _with_infer(rng, ops):
 
 
 def gen(rng, tier, n):
-    return _with_infer(rng, _gen(rng, tier, n))
+    return _with_infer(rng, _with_validate_defaults(rng, _gen(rng, tier, n)))
+
+
+def _strip(j, keys):
+    """j without the given keywords, at every level."""
+    if isinstance(j, Obj):
+        return Obj([(k, _strip(v, keys)) for k, v in j.kvs if k not in keys])
+    if isinstance(j, list):
+        return [_strip(x, keys) for x in j]
+    return j
+
+
+# (subschema, a default that is valid against it)
+DEFAULTED = [
+    (lambda: Obj([("type", "integer"), ("minimum", Num("0"))]), lambda: Num("1")),
+    (lambda: Obj([("pattern", "^x")]), lambda: "x1"),
+    (lambda: Obj([("pattern", "^x")]), lambda: Num("7")),
+    (lambda: Obj([("uniqueItems", True)]), lambda: [Num("1"), Num("2"), "1"]),
+    (lambda: Obj([("type", ["array", "null"]), ("items", Obj([("type", "number")]))]), lambda: [Num("1"), Num("1.5")]),
+    (lambda: Obj([("enum", ["a", "b", None])]), lambda: None),
+    (lambda: Obj([("properties", Obj([("q", Obj([("type", "string")]))])), ("required", ["q"])]), lambda: Obj([("q", "s")])),
+    (lambda: Obj([("patternProperties", Obj([("^k", Obj([("type", "boolean")]))])), ("additionalProperties", False)]), lambda: Obj([("k1", True)])),
+    (lambda: Obj([("anyOf", [Obj([("type", "string")]), Obj([("minimum", Num("3"))])])]), lambda: Num("4")),
+    (lambda: Obj([("not", Obj([("type", "null")]))]), lambda: False),
+    (lambda: Obj(), lambda: Obj([("any", ["thing"])])),
+    (lambda: Obj([("unevaluatedProperties", False), ("properties", Obj([("z", True)]))]), lambda: Obj([("z", Num("0"))])),
+]
+
+
+def _defaulted(rng):
+    mk, dv = rng.choice(DEFAULTED)
+    o = mk()
+    o.set("default", dv())
+    return o
+
+
+def _with_validate_defaults(rng, ops):
+    """~35% of the operations: Resolve with ValidateDefaults on a variant of the document with several valid defaults and no
+    $dynamicRef (D19). Every Validate call of the goroutines then runs on a Resolved whose defaults were validated during Resolve."""
+    for o in ops:
+        if rng.random() >= 0.35:
+            continue
+        doc = _strip(o["args"]["schema"], {"default", "$dynamicRef"})
+        props = doc.get("properties") if isinstance(doc.get("properties"), Obj) else Obj()
+        a = props.get("a") if isinstance(props.get("a"), Obj) else Obj()
+        if a.get("$ref") is None:
+            # (in the draft-07 shape `a` is {"$ref": …}, whose siblings are ignored there: left alone)
+            a.set("default", Num("1"))           # `a` has a pattern (strings only): 1 is valid
+            props.set("a", a)
+        for name in rng.sample(["b", "c", "e", "f", "g"], rng.randint(1, 3)):
+            props.set(name, _defaulted(rng))
+        if rng.random() < 0.7:
+            # nested: defaults below a subschema that has a (valid) default itself
+            inner = Obj([(k, _defaulted(rng)) for k in rng.sample(["m", "k", "j"], rng.randint(1, 2))])
+            props.set("n", Obj([("properties", inner), ("default", Obj())]))
+        doc.set("properties", props)
+        if rng.random() < 0.4 and doc.get("items") is None and doc.get("prefixItems") is None:
+            doc.set("items", _defaulted(rng))
+        if rng.random() < 0.4:
+            defs_kw = "definitions" if doc.get("definitions") is not None else "$defs"
+            defs = doc.get(defs_kw) if isinstance(doc.get(defs_kw), Obj) else Obj()
+            defs.set("vd%d" % rng.randint(0, 2), _defaulted(rng))
+            doc.set(defs_kw, defs)
+        if rng.random() < 0.3:
+            al = doc.get("allOf") if isinstance(doc.get("allOf"), list) else []
+            doc.set("allOf", al + [Obj([("properties", Obj([("h", _defaulted(rng))]))])])
+        o["args"]["schema"] = doc
+        o["args"]["validateDefaults"] = True
+        o["args"]["burst"] = rng.choice([4, 8, 16])
+        o["args"]["freshRounds"] = rng.choice([8, 16, 32])
+        o["args"]["insts"] = o["args"]["insts"] + [Obj([("a", "x1"), ("b", Num("1")), ("n", Obj([("m", "x")]))]), [Num("1"), "x", None]]
+        o["meta"]["vd"] = True
+    return ops
 
 
 def _gen(rng, tier, n):
